@@ -63,12 +63,13 @@ import (
 )
 
 const (
-	c13Generation    = 1
-	c13NSets         = 8
-	c13SettleTimeout = 45 * time.Second  // harness wait; expiry = harness problem, never a verdict
-	c13ParkTimeout   = 180 * time.Second // a parked actor nobody resumes = harness problem
-	c13StallWaitLong = 2 * time.Second   // final generous wait before the first stall of a process is reported
-	c13StallWaitNext = 150 * time.Millisecond
+	c13Generation     = 1
+	c13NSets          = 8
+	c13SettleTimeout  = 45 * time.Second  // harness wait; expiry = harness problem, never a verdict
+	c13ParkTimeout    = 180 * time.Second // a parked actor nobody resumes = harness problem
+	c13StallWaitLong  = 2 * time.Second   // final generous wait before the first stall of a process is reported
+	c13StallWaitNext  = 150 * time.Millisecond
+	c13RewrapPatience = 250 * time.Millisecond
 )
 
 // ---------------------------------------------------------------------------------------------------
@@ -361,15 +362,16 @@ const (
 )
 
 type c13Actor struct {
-	name   string
-	reload bool
-	idx    int
-	kind   string
-	state  int
-	gid    int64
-	moves  int
-	point  string
-	resume chan struct{}
+	name     string
+	reload   bool
+	idx      int
+	kind     string
+	state    int
+	gid      int64
+	moves    int
+	point    string
+	resume   chan struct{}
+	lastWait string // goroutine dump entry that last showed this actor in a lock wait
 
 	// request
 	req     *pb.C2SWrapper
@@ -393,24 +395,25 @@ type c13Ev struct {
 }
 
 type c13Sched struct {
-	e          *c13Env
-	p          *RegProcessor
-	reqs       []*c13Actor
-	reloads    []*c13Actor
-	bySeed     map[string]*c13Actor
-	ev         chan c13Ev
-	abandon    chan struct{}
-	abandoned  bool
-	cur        int
-	nextNew    int
-	nextReload int
-	inflight   *c13Actor
-	segLast    int
-	needRewrap bool
-	classes    map[string]bool
-	nontrivial bool
-	parkTO     atomic.Int32
-	dumps      int
+	e             *c13Env
+	p             *RegProcessor
+	reqs          []*c13Actor
+	reloads       []*c13Actor
+	bySeed        map[string]*c13Actor
+	ev            chan c13Ev
+	abandon       chan struct{}
+	abandoned     bool
+	cur           int
+	nextNew       int
+	nextReload    int
+	inflight      *c13Actor
+	segLast       int
+	needRewrap    bool
+	rewrapSkipped bool
+	classes       map[string]bool
+	nontrivial    bool
+	parkTO        atomic.Int32
+	dumps         int
 }
 
 type c13Wrap struct {
@@ -488,8 +491,8 @@ func c13NewSched(e *c13Env, c c13Case) (*c13Sched, error) {
 }
 
 func (s *c13Sched) enabled(reduce, sym bool) []*c13Actor {
-	var out []*c13Actor
 	reloadLeft := s.nextReload < len(s.reloads)
+	var cands []*c13Actor
 	for i, a := range s.reqs {
 		if a.state != c13New && a.state != c13Parked {
 			continue
@@ -497,23 +500,29 @@ func (s *c13Sched) enabled(reduce, sym bool) []*c13Actor {
 		if sym && a.state == c13New && i > 0 && s.reqs[i-1].kind == a.kind && s.reqs[i-1].state == c13New {
 			continue // interchangeable with its not yet started predecessor
 		}
-		if reduce && s.inflight == nil {
-			if !reloadLeft {
-				if len(out) == 0 {
-					out = append(out, a) // single canonical completion after the last reload
+		cands = append(cands, a)
+	}
+	if reduce && len(cands) > 0 {
+		if s.inflight == nil && !reloadLeft {
+			cands = cands[:1] // single canonical completion after the last reload has returned
+		} else {
+			// within a segment between reload events (start / return) requests move in index order
+			var f []*c13Actor
+			for _, a := range cands {
+				if a.idx >= s.segLast {
+					f = append(f, a)
 				}
-				continue
 			}
-			if a.idx < s.segLast {
-				continue
+			if len(f) > 0 || s.inflight == nil {
+				cands = f // with no reload in flight the next reload can be started, f may be empty
 			}
+			// else: a reload waits and only requests below the last mover can still move: new sorted run
 		}
-		out = append(out, a)
 	}
 	if s.inflight == nil && reloadLeft {
-		out = append(out, s.reloads[s.nextReload])
+		cands = append(cands, s.reloads[s.nextReload])
 	}
-	return out
+	return cands
 }
 
 func (s *c13Sched) move(a *c13Actor) {
@@ -555,6 +564,7 @@ func (s *c13Sched) move(a *c13Actor) {
 		a.prevSet = s.cur
 		os.Setenv("PHANTOM_SUBNET_LOCATION", path)
 		s.inflight = a
+		s.segLast = -1
 		a.state = c13Running
 		go func() {
 			s.ev <- c13Ev{a: a, typ: 0, gid: c13Gid()}
@@ -679,7 +689,12 @@ func (s *c13Sched) settle() error {
 			s.dumps++
 			changed := false
 			for _, a := range s.all() {
-				if a.state == c13Blocked && !d[a.gid].lockWait() {
+				if a.state != c13Blocked {
+					continue
+				}
+				if g := d[a.gid]; g.lockWait() {
+					a.lastWait = g.text
+				} else {
 					a.state = c13Running
 					changed = true
 				}
@@ -742,25 +757,29 @@ func (s *c13Sched) settle() error {
 			a.hi = s.cur
 		}
 	}
-	return s.rewrap()
+	s.rewrap()
+	return nil
 }
 
 // rewrap puts the parking wrapper around a selector installed by a reload. It runs only at a stable
 // point with no reload in flight. Nobody can hold the lock then if the selector changed: readers
 // that held it before the swap had to leave for the writer to get in, and readers admitted after the
 // swap ran through the raw selector without parking, i.e. they are finished at a stable point.
-func (s *c13Sched) rewrap() error {
+// If the mutex is nevertheless held (a lock leaked by the code under test) the harness gives up on
+// the wrapper and carries on: the leak then shows as a stall of the next request or reload. A case
+// in which the wrapper could not be re-installed and nothing stalled is a harness problem.
+func (s *c13Sched) rewrap() {
 	if !s.needRewrap || s.inflight != nil {
-		return nil
+		return
 	}
-	deadline := time.Now().Add(c13SettleTimeout)
+	deadline := time.Now().Add(c13RewrapPatience)
 	for {
 		if s.p.selectorMutex.TryRLock() {
 			ok := c13HasWrap(s.p)
 			s.p.selectorMutex.RUnlock()
 			if ok {
 				s.needRewrap = false
-				return nil
+				return
 			}
 			if s.p.selectorMutex.TryLock() {
 				if !c13HasWrap(s.p) {
@@ -768,11 +787,14 @@ func (s *c13Sched) rewrap() error {
 				}
 				s.p.selectorMutex.Unlock()
 				s.needRewrap = false
-				return nil
+				return
 			}
 		}
 		if time.Now().After(deadline) {
-			return fmt.Errorf("cannot re-install the parking wrapper: selectorMutex stays held at a stable point: %s", s.describe(c13Dump()))
+			s.needRewrap = false
+			s.rewrapSkipped = true
+			s.classes["rewrap-skipped"] = true
+			return
 		}
 		time.Sleep(50 * time.Microsecond)
 	}
@@ -832,6 +854,9 @@ func c13Run(e *c13Env, c c13Case) (res c13Result) {
 			s.release(20 * time.Millisecond)
 		} else {
 			s.release(5 * time.Second)
+		}
+		if s.rewrapSkipped && res.Key == "" && res.Harness == "" {
+			res.Harness = "selectorMutex was held at a stable point with no reload in flight (wrapper not re-installed), yet nothing stalled"
 		}
 		for k := range s.classes {
 			res.Classes = append(res.Classes, k)
@@ -949,7 +974,7 @@ func c13Run(e *c13Env, c c13Case) (res c13Result) {
 		case ev := <-s.ev:
 			tm.Stop()
 			s.apply(ev)
-			res.Harness = fmt.Sprintf("a state judged stable changed during the final wait (%s moved): %s", ev.a.name, s.describe(c13Dump()))
+			res.Harness = fmt.Sprintf("a state judged stable changed during the final wait (%s moved, event %d): %s; it had been seen waiting as:\n%s", ev.a.name, ev.typ, s.describe(c13Dump()), ev.a.lastWait)
 			return
 		case <-tm.C:
 		}
@@ -987,16 +1012,41 @@ func c13Run(e *c13Env, c c13Case) (res c13Result) {
 	}()
 	gidMsg := <-ch
 	var r pr
-	select {
-	case r = <-ch:
-	case <-time.After(c13SettleTimeout):
-		d := c13Dump()
-		if g := d[gidMsg.gid]; g.lockWait() && g.where() != "" {
-			first("stall", fmt.Sprintf("after all requests and reloads had finished a further request blocks for good in %s", g.where()))
-		} else {
-			res.Harness = "final probe request did not return: " + g.text
+	deadline := time.Now().Add(c13SettleTimeout)
+	wait := 200 * time.Microsecond
+	for got := false; !got; {
+		select {
+		case r = <-ch:
+			got = true
+			continue
+		case <-time.After(wait):
 		}
-		return
+		if wait < 5*time.Millisecond {
+			wait *= 2
+		}
+		if g := c13Dump()[gidMsg.gid]; g.lockWait() && g.where() != "" {
+			// every actor has finished, so nobody is left who could release that lock; confirm anyway
+			w := c13StallWaitNext
+			if c13StallsSeen.Load() == 0 {
+				w = c13StallWaitLong
+			}
+			select {
+			case r = <-ch:
+				got = true
+				continue
+			case <-time.After(w):
+			}
+			if g = c13Dump()[gidMsg.gid]; g.lockWait() && g.where() != "" {
+				c13StallsSeen.Add(1)
+				res.Stalled = true
+				first("stall", fmt.Sprintf("registrar blocked for good: every request and reload of the schedule has returned, yet a further request still waits after %v in %s", w, g.where()))
+				return
+			}
+		}
+		if time.Now().After(deadline) {
+			res.Harness = "final probe request did not return: " + c13Dump()[gidMsg.gid].text
+			return
+		}
 	}
 	if r.pan != "" {
 		first("request-panic", "request after the schedule panicked: "+r.pan)
@@ -1125,6 +1175,11 @@ func c13Replay(t *testing.T, rec *vh.Rec, e *c13Env) bool {
 	if _, _, err := vh.LoadReplay(p, &c); err != nil {
 		t.Fatal(err)
 	}
+	// VERIF_C13_REPEAT=n replays the case n times (debugging aid for the harness itself)
+	n, _ := strconv.Atoi(os.Getenv("VERIF_C13_REPEAT"))
+	for i := 0; i < n-1; i++ {
+		c13Check(t, rec, e, c)
+	}
 	c13Check(t, rec, e, c)
 	return true
 }
@@ -1212,11 +1267,11 @@ func TestVerif_C13_exhaustive(t *testing.T) {
 	})
 }
 
-// TestVerif_C13_reduced: larger scenarios, enumerated modulo the order of request moves while no
-// reload is in flight (requests only read; their moves commute then): every vector of request
-// positions at every reload start, and every order of moves while a reload waits for the lock.
+// TestVerif_C13_reduced: larger scenarios, enumerated modulo the order of request moves between
+// reload events (requests only read-lock; their moves commute): every vector of request positions at
+// every reload start. All orders are covered by the exhaustive sub-check for the small scenarios.
 func TestVerif_C13_reduced(t *testing.T) {
-	rec := vh.NewRec("C13", "reduced", "every vector of request positions (not started / inside 1st selection / between selections / inside 2nd / after / finished) at the start of every reload, and every order of moves while a reload is waiting for the lock; request moves made while no reload is in flight are taken in one canonical order (they only read); quick: k=3,m=1; k<=2,m=2; k=3 with >=2 dual-stack requests and two valid reloads; thorough: k<=3,m<=2 all reload kinds; k<=2,m=3; k=4,m=1; k=4 with two valid reloads; non-trivial and distinct as in the exhaustive sub-check. Not an enumeration of all interleavings.")
+	rec := vh.NewRec("C13", "reduced", "every vector of request positions (not started / inside 1st selection / between selections / inside 2nd / after / finished) at the start of every reload: within each segment between reload events (a reload starts / returns) requests move in index order (they only read-lock, so their moves commute; while a reload waits for the lock a new index-ordered run starts when only lower-numbered requests can still move); quick: k=3,m=1; k<=2,m=2; k=3 with >=2 dual-stack requests and two valid reloads; thorough: k<=3,m<=2 all reload kinds; k<=2,m=3; k=4,m=1; k=4 with two valid reloads; non-trivial and distinct as in the exhaustive sub-check. Not an enumeration of all interleavings.")
 	defer rec.Flush()
 	e := c13NewEnv(t)
 	if c13Replay(t, rec, e) {
